@@ -71,7 +71,7 @@ var specs = map[string]spec{}
 
 // raceTests names, per property, the free-running test that is built with -race and run once
 // after the exhaustive exploration (supporting evidence for the data-race clauses; sampling).
-var raceTests = map[string]string{"C10": "TestVerifC10Race", "C20": "TestVerifC20Race"}
+var raceTests = map[string]string{"C02": "TestVerifC02Race", "C10": "TestVerifC10Race", "C20": "TestVerifC20Race"}
 
 func specFor(id string) spec {
 	if s, ok := specs[id]; ok {
